@@ -110,6 +110,43 @@ func runC14(c *eng.Ctx, tier string) {
 				c.Bad("R-C14-2", m.Fn, in.Pos(), "Unlock between state accesses in "+m.Name, "all state accesses of one operation lie in a single critical section", "state access "+eng.InstrStr(hit)+" at "+c.P.Pos(hit.Pos())+" follows the unlock: "+c.P.PathStr(path))
 			}
 		})
+		// a helper of the operation with a critical section of its own: a call
+		// of a function that itself takes and releases db.DB.mu and touches the
+		// state, while the operation touches the state elsewhere as well
+		eng.Instrs(m.Fn, func(in ssa.Instruction) {
+			call, ok := in.(*ssa.Call)
+			if !ok {
+				return
+			}
+			h := eng.Callee(&call.Call)
+			if !eng.IsHelper(m.Fn, h) {
+				return
+			}
+			locks, touches := false, false
+			eng.Instrs(h, func(x ssa.Instruction) {
+				if ci, isCI := x.(ssa.CallInstruction); isCI {
+					if op, k, isL := eng.LockOp(ci.Common()); isL && k == keyDB && (op == "Lock" || op == "RLock") {
+						locks = true
+					}
+					if cal := eng.Callee(ci.Common()); cal != nil && d.touch[eng.Unwrap(cal)] {
+						touches = true
+					}
+				}
+			})
+			if !locks || !touches {
+				return
+			}
+			other := false
+			for _, st := range sites {
+				if st.Fn != h && eng.Outer(st.Fn) != h {
+					other = true
+				}
+			}
+			if other {
+				bad = true
+				c.Bad("R-C14-2", m.Fn, in.Pos(), "critical section of its own in "+eng.CallStr(&call.Call), "all state accesses of one operation lie in a single critical section", "the helper locks, reads the state and unlocks; "+m.Name+" accesses the state again outside that section (what it read may be stale by then)")
+			}
+		})
 		if !bad && len(sites) > 0 {
 			c.Ok("R-C14-2", m.Fn, m.Fn.Pos(), "critical section of "+m.Name, "single critical section")
 		}
